@@ -275,9 +275,7 @@ Proof. intros E s. exact (step_agree impl_ops spec_ops impl_ops_agree E s). Qed.
 (* non-vacuity: PUSH32 (-7) PUSH1 1 SAR PUSH0 MSTORE PUSH1 32 PUSH0 RETURN returns the word -4 on both *)
 Definition ex_code : list Z :=
   [127] ++ Z_to_be 32 (neg 7) ++ [96; 1; 29; 95; 82; 96; 32; 95; 243].
-Definition ex_env : env :=
-  {| e_code := ex_code; e_calldata := []; e_readonly := false; e_keccak := fun _ => 0;
-     e_ctx := fun _ => 0; e_keyed := fun _ _ => 0; e_extcode := fun _ => []; e_acct_kind := fun _ => 0 |}.
+Definition ex_env : env := default_env ex_code [].
 Definition returns_word (r : run_res) (w : Z) : Prop :=
   match r with Done (Return d) _ => be_to_Z d = w /\ length d = 32%nat | _ => False end.
 
